@@ -183,6 +183,10 @@ class Session(object):
         except (Unsupported, SpecError) as ex:
             res['error'] = '%s: %s' % (type(ex).__name__, ex)
             return res
+        except Exception as ex:      # a contract that no longer fits the code (types changed under it) must not crash the check
+            import traceback
+            res['error'] = 'ContractBindingError: %s: %s (%s)' % (type(ex).__name__, ex, traceback.format_exc().strip().split('\n')[-3].strip())
+            return res
         obs = list(ctx.obligations)
         cn = Obligation(short_fn(full) + '/canary.requires', 'canary', TRUE, FALSE, 0, v.entry_nassert)
         cn.trivial = False
@@ -225,7 +229,7 @@ class Session(object):
                 v.track_init = any('init' in x for x in spec.opts.get('track', []))
                 v.check_wide_ovf = any('int' in x.split() for x in spec.opts.get('ovf', []))
             ctx = v.run()
-        except (Unsupported, SpecError) as ex:
+        except Exception as ex:
             res['error'] = '%s: %s' % (type(ex).__name__, ex)
             res['gen_s'] = time.time() - t0
             return res
